@@ -50,8 +50,9 @@ Copy == /\ ~Full
                        /\ Record(Step("copy", i, 0, "x", v, TRUE, Len(heap) + 1))
                   ELSE /\ heap' = heap
                        /\ Record(Step("copy", i, 0, "x", v, FALSE, 0))
-             \/ /\ heap' = Append(heap, [heap[i] EXCEPT !.time = 7])
-                /\ Record(Step("copy", i, 0, "time", 7, TRUE, Len(heap) + 1))
+             \/ \E tv \in {0, 7} :                      \* also the falsy value 0
+                /\ heap' = Append(heap, [heap[i] EXCEPT !.time = tv])
+                /\ Record(Step("copy", i, 0, "time", tv, TRUE, Len(heap) + 1))
 
 Freeze == \E i \in DOMAIN heap :
             IF heap[i].frozen
